@@ -361,13 +361,18 @@ def tstiff_base_flange(ctx, rng):
     return None, None
 
 
-def assembly_history(ctx, rng, ir):
-    """the connection matrix of an assembly does not depend on which evaluation built it first: after calc_k0(finalize=False)
-    (the un-symmetrised sum some callers ask for), get_k0_conn() / calc_k0() deliver what they deliver on a fresh assembly"""
+def assembly_history(ctx, rng, ir, t=None, forced=None):
+    """the connection matrix of an assembly does not depend on which evaluation built it first: after calc_k0(finalize=False) or
+    get_k0_conn(finalize=False) (the un-symmetrised sums some callers ask for), or after calc_k0(conn=<another list>), get_k0_conn() /
+    calc_k0() deliver what they deliver on a fresh assembly - the symmetric Hessian of the interface energy of the assembly's OWN list"""
     case = gen(ctx, rng)
-    # (an explicit get_k0_conn(finalize=False) as FIRST call is the listed finding C20-asm-k0_conn-cache-ignores-conn - the cache ignores
-    #  the arguments of the call that filled it - and is exercised there, not here)
-    first = rng.choice(['calc_k0(finalize=False)', 'calc_k0(finalize=False)', 'calc_kT'])
+    # (get_k0_conn(finalize=False) / calc_k0(conn=other) as FIRST call used to poison the cache self.k0_conn: finding
+    #  C20-asm-k0_conn-cache-ignores-conn, repaired - the cache now serves and stores only (own list, finalize=True))
+    firsts = ['calc_k0(finalize=False)', 'get_k0_conn(finalize=False)', 'calc_k0(conn=other list)', 'calc_kT']
+    first = rng.choice(firsts) if t is None else firsts[t % len(firsts)]       # the stream takes them in turn: every tier sees all four
+    twice = rng.random() < 0.3
+    if forced:                  # replay of a recorded input
+        case, first, twice = forced['case'], forced['first'], forced.get('other') == 'own connection twice'
     try:
         asm, p1, p2 = build(case)
         # reference: the plain calc_k0() FIRST, so that both assemblies build their laminates the same way (which call builds the
@@ -375,17 +380,38 @@ def assembly_history(ctx, rng, ir):
         k0_fresh = pc.quiet(asm.calc_k0, silent=True).toarray()
         fresh = pc.quiet(asm.get_k0_conn).toarray()
         asm2, q1, q2 = build(case)
+    except Exception as e:
+        return None, None
+    desc = dict(case=case, first=first)
+    if first == 'calc_k0(conn=other list)':
+        desc['other'] = 'own connection twice' if (twice or case['kind'] == 'SB') else 'own connection on a moved line'
+    try:
         if first == 'calc_k0(finalize=False)':
             pc.quiet(asm2.calc_k0, silent=True, finalize=False)
         elif first == 'get_k0_conn(finalize=False)':
+            for q in (q1, q2):      # the panels' own calc_k0 builds the laminates WITH offset, as the reference did (see above), and
+                pc.quiet(q.calc_k0, silent=True)     # leaves the assembly's cache alone
             pc.quiet(asm2.get_k0_conn, finalize=False)
+        elif first == 'calc_k0(conn=other list)':
+            own = asm2.conn[0]
+            moved = dict(own)
+            for k in ('xcte1', 'ycte1'):
+                if k in moved:      # the line on panel 1 moved to another place of that panel
+                    L = q1.a if k == 'xcte1' else q1.b
+                    moved[k] = 0.37 * L if abs(moved[k] - 0.37 * L) > 1e-3 * L else 0.61 * L
+            # another list object: the own connection on a moved line, or (no line to move: SB) the own connection twice
+            other = [moved] if desc['other'] != 'own connection twice' else [dict(own), dict(own)]
+            k0_other = pc.quiet(asm2.calc_k0, silent=True, conn=other).toarray()
+            if pc.rel_diff(k0_other, k0_fresh) < 1e-12:
+                return None, None       # the other list happens to give the same matrix: nothing to tell apart
         else:
             pc.quiet(asm2.calc_kT, c=np.zeros(asm2.get_size()), silent=True)
         later = pc.quiet(asm2.get_k0_conn).toarray()
         k0_later = pc.quiet(asm2.calc_k0, silent=True).toarray()
     except Exception as e:
-        return None, None
-    desc = dict(case=case, first=first)
+        # the same evaluations succeeded on the identical fresh assembly above
+        return desc, ('%s, get_k0_conn(), calc_k0() on an assembly whose calc_k0() and get_k0_conn() succeed when called first raised %s: %s'
+                      % (first, type(e).__name__, str(e)[:160]))
     d = pc.rel_diff(later, fresh)
     if d > 1e-12:
         return desc, ('get_k0_conn() after %s on the same assembly differs from get_k0_conn() of a freshly built assembly: rel %.3e '
@@ -433,8 +459,8 @@ def correspondence(ctx):
         if bad:
             ctx.violation('C12 fails on the implementation: ' + bad, dict(case=c, derived='tstiff base-flange'))
             return
-    for t in range(ctx.scale(6, 40)):
-        c, bad = assembly_history(ctx, rng, ir)
+    for t in range(ctx.scale(8, 40)):
+        c, bad = assembly_history(ctx, rng, ir, t)
         ctx.evaluations += 1
         if bad:
             ctx.violation('C12 fails on the implementation: ' + bad, dict(case=c, derived='assembly history'))
@@ -513,6 +539,10 @@ def search(ctx, reason):
 
 def replay(ctx, data):
     r = data['replay']
+    if r.get('derived') == 'assembly history':
+        c, bad = assembly_history(ctx, ctx.rng, None, forced=r['case'])
+        print('assembly history (%s first):' % r['case']['first'], bad)
+        return 1 if bad else 0
     if r.get('case') and not r.get('derived'):
         v_bad, p_bad, ident = run_case(ctx, r['case'], translate(ctx))
         print('V:', v_bad, '| property on implementation:', p_bad)
